@@ -18,6 +18,15 @@ CLAIMS = {
         "is executed on exact rationals and on i32/i64/f32/f64, recorded, and each record is recomputed by TLC from the specification. Inputs are sampled, so 'for all inputs' is "
         "reached in the Schwartz-Zippel sense, not symbolically."),
   design="§6 C01, §12"),
+ "C02": dict(
+  technique="TLA+ spec of element-wise lifting over opaque terms (VekVec) and an exhaustive TLC model of the integer operators (MC_Vec); calls recorded from the real code on an opaque-term element type validated structurally by TLC trace validation (parametricity gives all inputs)",
+  text=("The generic operator code of vek is run on an opaque term element type that obeys no arithmetic law, so every recorded output element is the exact expression tree that produced it; TLC checks "
+        "that element i is op(a_i, b_i) and nothing else (a scalar standing for its broadcast) - by parametricity this decides the claim for every input - for all 13 vector types, the 10 binary "
+        "operators in 9 operand forms, Neg, Not, MulAdd in its 8 reference forms and the inherent form, map/map2/map3/apply/apply2/apply3/zip/hadd/user fold, and all constructors (broadcast, zero, "
+        "one, iota, from tuple/array/slice/iterator with fewer, equal or more items). Order-dependent operations (comparison masks, min/max/partial_*, reductions incl. bit and boolean ones for "
+        "int/bool/float, primitive scalar on the left) are recorded on integers with planted coincidences and recomputed by TLC, whose operators are themselves model-checked exhaustively on "
+        "3-vectors over 0..3; sums, products, average, dot and Sum/Product of iterators on exact rationals; sqrt/rsqrt/recip/ceil/floor/round on exact pairs."),
+  design="§6 C02, §12"),
  "C04": dict(
   technique=TRACE_TECH,
   text=("TLC model-checks on the specification (random tuples over Z_46337 with c,s free on the unit circle; exact rationals for the orientation laws) that RotX/Y/Z, the 2D rotation and "
